@@ -403,6 +403,9 @@ pub fn c15(eng: &mut Engine, rng: &mut Rng, thorough: bool, out: &mut Out) -> Ca
                         Err(_) => json!({"err": true}),
                         Ok(d) => match d.get_proof_value() { DataIntegrityProofValue::CredentialSignature(_) => json!(1), DataIntegrityProofValue::CredentialPresentation(_) => json!(2), DataIntegrityProofValue::Presentation(_) => json!(3) },
                     };
+                    // all four layers by the model (op pv_typed: the elements are classified from the bytes — an integer within i32, a map
+                    // with the required members of payload structure k, anything else — and the visitor model decides): every class
+                    cases.push((json!({"op":"pv_typed","fam":"c15.mp","cls":format!("typed-{cls}"),"s":text,"nt":true}), imp.clone()));
                     // the same text through the whole model chain (op pv_read: header, base64url, msgpack, tagged sequence): exact when the
                     // library accepts (kind and the payload's document), and when it refuses for a reason the untyped layers can see
                     // (not two elements, first element not a tag 1..3); a payload of the wrong structure is the typed layer's refusal
